@@ -123,11 +123,11 @@ atomic and durable (goleveldb), and block data reaches the disk when synced. -/
 theorem crash_image_is_prefix {A : UtxoAlg} (evs : List (DEvent (Commit A)))
     (d : DState (Image A) (Commit A))
     (hc : CrashAt apply (BV.C05.init (Image.empty A)) evs d) :
-    d.nDisk ≤ (commitsOf evs).length ∧
+    d.nDisk ≤ d.nSynced ∧ d.nDisk ≤ (commitsOf evs).length ∧
     crashImage d = replay (Image.empty A) ((commitsOf evs).take d.nDisk) := by
   have := BV.C05.Lemmas.crash_safe apply (Image.empty A) (BV.C05.init (Image.empty A)) evs d
     (BV.C05.Lemmas.init_inv apply (Image.empty A)) hc
   simp only [BV.C05.Lemmas.CrashSafe, BV.C05.init, List.nil_append] at this
-  exact ⟨this.2.1, this.2.2⟩
+  exact this
 
 end BV.C04
